@@ -32,7 +32,7 @@ GATES = {
     "multiscale_S2_observed": 1,
     "multiscale_S3_observed": 1,
     "history_check_run_run": 1,
-    "history_run_check_run": 1,
+    "history_run_check_run": 1, "history_with_suffixed_validation_only": 1,
     "right_pass_observed": 1,
     "rejected_words": 100,
     "accepted_words": 100,
@@ -168,12 +168,14 @@ def cases(spec, ctx):
             w = pipes.sample_word(rng, max_len=7)
             if rng.random() < 0.5 and "disparity" in w and "validation" not in w:
                 w.append("validation")
-            ops = [["check", "run"][int(x)] for x in rng.integers(0, 2, int(rng.integers(4, 9)))]
+            # documented usage: a pipeline is checked on the machine, then run any number of times
+            ops = ["check"] + [["check", "run"][int(x)] for x in rng.integers(0, 2, int(rng.integers(4, 9)))]
             if i % 4 == 0:
-                ops = ["check", "run", "run"] + ops[:2]
+                ops = ["check", "run", "run", "run"] + ops[1:3]
             if i % 4 == 1:
-                ops = ["run", "check", "run"] + ops[:2]
-            yield {"work": "hist", "keys": pipes.keys_for(w), "ops": ops, "i": i, "part": spec["part"]}
+                ops = ["check", "run", "check", "run"] + ops[1:3]
+            sfx = set(w) if i % 2 == 0 else None
+            yield {"work": "hist", "keys": pipes.keys_for(w, suffix_first=sfx), "ops": ops, "i": i, "part": spec["part"]}
 
 
 FAULTS = {
@@ -462,6 +464,8 @@ def _hist(case, ctx, keys, kinds):
     s = "".join(o[0] for o in ops)
     ctx.gate("history_check_run_run", int("crr" in s))
     ctx.gate("history_run_check_run", int("rcr" in s))
+    ctx.gate("history_with_suffixed_validation_only", int(any(k.startswith("validation.") for k in keys) and "validation" not in keys
+                                                          and "rr" in s))
     ml, mr = gen.metadata_dataset(left), gen.metadata_dataset(right)
     # the configuration used by run ops comes from a first check on a scratch machine
     m0 = pipes.new_machine()
@@ -478,9 +482,6 @@ def _hist(case, ctx, keys, kinds):
             )
             check_results.append(res)
         else:
-            if "validation" in kinds and m.right_disp_map is None:
-                # API contract (as_an_api.rst): a pipeline is checked on the machine before it is run
-                m.check_conf({"pipeline": copy.deepcopy(pipe)}, ml, mr)
             l, r = pandora.run(m, gen.deep_copy_ds(left), gen.deep_copy_ds(right), copy.deepcopy(cfg0))
             run_results.append((gen.ds_digest(l), gen.ds_digest(r)))
         probs = _clean(m)
